@@ -14,6 +14,7 @@ ASSUMPTIONS = ["tolerance 1e-9 (summation order differs between chunkings and be
 from frouros.detectors.data_drift.batch import MMD  # noqa: E402
 from frouros.detectors.data_drift.streaming import MMD as MMDStreaming  # noqa: E402
 from frouros.utils.kernels import rbf_kernel  # noqa: E402
+from frouros.detectors.data_drift.exceptions import MissingFitError  # noqa: E402
 
 
 def unbiased(X, Y, sigma):
@@ -27,10 +28,21 @@ def unbiased(X, Y, sigma):
     return sxx / (n * (n - 1)) + syy / (m * (m - 1)) - 2 * sxy / (n * m)
 
 
-def sample(rng, n, dim):
+def sample(rng, n, dim, offset=0.0, scale=1.0):
     shift = rng.choice([0.0, 0.5, 2.0])
-    a = np.array([[rng.gauss(shift, 1.0) for _ in range(max(1, dim))] for _ in range(n)])
+    a = np.array([[offset + scale * rng.gauss(shift, 1.0) for _ in range(max(1, dim))] for _ in range(n)])
     return a[:, 0] if dim == 0 else a
+
+
+def conditioning(rng):
+    """location / scale of the features: mostly around 0, sometimes with a large offset (timestamps, prices, counters) or a
+    small / large scale — the estimator is a function of differences only, so none of this may change its accuracy"""
+    r = rng.random()
+    if r < 0.55:
+        return 0.0, 1.0
+    if r < 0.85:
+        return rng.choice([1e3, 1e6, 1e8, -1e7]), 1.0
+    return rng.choice([0.0, 1e4]), rng.choice([1e-3, 30.0])
 
 
 def run(out: Outcome) -> None:
@@ -41,8 +53,9 @@ def run(out: Outcome) -> None:
     lines, expect = [], []
     for _ in range(40 if thorough else 12):
         n, m, dim = rng.randint(2, 12), rng.randint(2, 12), rng.choice([0, 1, 2, 3])
-        sigma = rng.choice([0.5, 1.0, 2.5])
-        X, Y = sample(rng, n, dim), sample(rng, m, dim)
+        off, sc = conditioning(rng)
+        sigma = rng.choice([0.5, 1.0, 2.5]) * sc
+        X, Y = sample(rng, n, dim, off, sc), sample(rng, m, dim, off, sc)
         ref = unbiased(X, Y, sigma)
         kern = partial(rbf_kernel, sigma=sigma)
         for cs in [None] + list(range(1, max(n, m) + 3)):
@@ -64,27 +77,50 @@ def run(out: Outcome) -> None:
                 out.violation(f"MMD stand-alone statistic on another sample pair (after fit) returns {alone2!r}, the unbiased estimator is {ref2!r}", rep)
             lines.append(f"mmd {dim} {n} {m} {'-' if cs is None else cs} {f2h(sigma)} " + " ".join(f2h(v) for v in np.concatenate([X.reshape(-1), Y.reshape(-1)])))
             expect.append((got, rep))
-            out.case({"n": n, "m": m, "dim": dim, "cs": cs, "sigma": sigma, "h": hash(X.tobytes() + Y.tobytes()) & 0xFFFFFF})
+            out.case({"n": n, "m": m, "dim": dim, "cs": cs, "sigma": sigma, "offset": off, "scale": sc, "h": hash(X.tobytes() + Y.tobytes()) & 0xFFFFFF})
     # streaming
     for _ in range(30 if thorough else 10):
         w, dim = rng.randint(2, 6), rng.choice([1, 2])
         cs = rng.choice([None, 1, 2, 3, w, w + 1])
         sigma = rng.choice([1.0, 0.7])
-        ref = sample(rng, rng.randint(2, 9), dim)
+        off = rng.choice([0.0, 0.0, 1e6, 1e8])
+        ref = sample(rng, rng.randint(2, 9), dim, off)
         kern = partial(rbf_kernel, sigma=sigma)
         det = MMDStreaming(window_size=w, kernel=kern, chunk_size=cs)
+        lines.append(f"x sn {w} {'-' if cs is None else cs} {f2h(sigma)}")
+        expect.append(None)
+        rejected = 0
         if rng.random() < 0.5:      # the detector was used on another reference before: reset(), then fit again
-            det.fit(X=sample(rng, rng.randint(2, 6), dim))
+            other = sample(rng, rng.randint(2, 6), dim, off)
+            det.fit(X=other)
+            lines.append(f"x sf {dim} " + " ".join(f2h(v) for v in other.reshape(-1)))
+            expect.append(None)
             for _ in range(rng.randint(1, 2 * w)):
-                det.update(value=sample(rng, 1, dim)[0])
+                v = sample(rng, 1, dim, off)[0]
+                det.update(value=v)
+                lines.append("x su " + " ".join(f2h(x) for x in v))
+                expect.append(None)
             det.reset()
+            lines.append("x sr")
+            expect.append(None)
+        # updates on the unfitted detector: MissingFitError, and no trace in what follows
+        for _ in range(rng.choice([0, 0, 1, 3, w])):
+            v = sample(rng, 1, dim, off)[0]
+            rejected += 1
+            lines.append("x su " + " ".join(f2h(x) for x in v))
+            try:
+                det.update(value=v)
+                out.violation("streaming MMD: update on an unfitted detector did not raise MissingFitError", {"window": w, "dim": dim})
+                expect.append(None)
+            except MissingFitError:
+                expect.append(("err:MissingFit", {"window": w, "dim": dim, "kind": "update before fit"}))
         det.fit(X=ref)
-        stream = [sample(rng, 1, dim)[0] for _ in range(w + rng.randint(0, 8))]
-        lines += [f"x sn {w} {'-' if cs is None else cs} {f2h(sigma)}", f"x sf {dim} " + " ".join(f2h(v) for v in ref.reshape(-1))]
-        expect += [None, None]
+        stream = [sample(rng, 1, dim, off)[0] for _ in range(w + rng.randint(0, 8))]
+        lines.append(f"x sf {dim} " + " ".join(f2h(v) for v in ref.reshape(-1)))
+        expect.append(None)
         for t, v in enumerate(stream, 1):
             r, _ = det.update(value=v)
-            rep = {"window": w, "dim": dim, "chunk_size": cs, "sigma": sigma, "ref": ref.tolist(), "stream": [x.tolist() for x in stream[:t]]}
+            rep = {"window": w, "dim": dim, "chunk_size": cs, "sigma": sigma, "ref": ref.tolist(), "stream": [x.tolist() for x in stream[:t]], "rejected_before_fit": rejected}
             lines.append("x su " + " ".join(f2h(x) for x in v))
             if t < w:
                 expect.append(("none", rep))
@@ -106,6 +142,10 @@ def run(out: Outcome) -> None:
         if exp is None:
             continue
         val, rep = exp
+        if val == "err:MissingFit":
+            if got != val:
+                out.mismatch(f"streaming MMD model answers '{got}' to an update on an unfitted detector (implementation: MissingFitError)", rep)
+            continue
         if val == "none":
             if got != "-":
                 out.mismatch(f"streaming MMD model returned {got} during warm-up", rep)
